@@ -1,8 +1,8 @@
 package rules
 
 import (
-	"os"
 	"fmt"
+	"os"
 	"strings"
 	"unicode"
 
